@@ -159,6 +159,11 @@ def _run_pred(ctx, spec, rng):
         if _indep_rank(a_ops).min() < 1e-2:
             return ctx.note_inconclusive("nonextremal-dependent-kraus")
         truth = dict(extremal=False, qc=True, rank=k)
+    # Choi rank of every class (also non-Hermiticity-preserving maps): model rank of the model Choi matrix, decided only with a clear gap
+    sv = np.linalg.svd(ref.choi_of(a_ops, b_ops, din), compute_uv=False)
+    big = sv[sv > 1e-6 * sv[0]]
+    if "rank" not in truth and len(big) and (len(big) == len(sv) or sv[len(big)] < 1e-10 * sv[0]):
+        truth["rank"] = int(len(big))
     cp_forms = truth.get("cp", False) or cls in ("extremal", "nonextremal")
     forms = _forms(a_ops, b_ops, din, cp_forms)
     det = {"class": cls, "din": din, "dout": dout, "r": len(a_ops), "complex": cplx}
